@@ -118,6 +118,11 @@ func zzTablePoint(n int) {
 	vpAssert(e1 == nil && e2 == nil, "offsetof-ok")
 	vpAssert(o1 <= o2, "offsetof-monotone")
 	vpAssert(o2 <= int64(len(t.f.data)), "offsetof-within-file")
+	if len(t.K) > 0 {
+		past := []byte{0xff, 0xff, 0xff} // beyond every stored key and every shortened index key
+		oe, ee := r.OffsetOf(past)
+		vpAssert(ee == nil && oe == int64(r.metaBH.offset), "offsetof-past-end-is-end-of-data")
+	}
 	r.Release()
 	_, err = r.Get(q, nil)
 	vpAssert(err == ErrReaderReleased, "released-reader")
@@ -279,6 +284,8 @@ func ZZ_C13_table_dmg2() { zzTableDamage(2) }
 
 // ---- C16-find: filtered and unfiltered lookups agree ----
 
+func zzCopyB(b []byte) []byte { return append([]byte(nil), b...) }
+
 func zzTableFilter(n int) {
 	t := zzBuildTable(n, zzExactFilter{})
 	r := t.open()
@@ -287,6 +294,22 @@ func zzTableFilter(n int) {
 		k1, v1, e1 := r.Find(t.K[i], true, nil)
 		vpAssert(e1 == nil, "filtered-finds-stored-key")
 		vpAssert(len(k1) == len(t.K[i]) && vpEqBytes(k1, t.K[i]) && len(v1) == len(t.V[i]) && vpEqBytes(v1, t.V[i]), "filtered-returns-stored-pair")
+	}
+	// approximate offsets with a filter block present: monotone, inside the
+	// data area, also for keys past the last entry
+	qa, qb := zzKB(0, zzMaxKey), zzKB(0, zzMaxKey)
+	vpAssume(bytes.Compare(qa, qb) <= 0)
+	oa, ea := r.OffsetOf(qa)
+	ob, eb := r.OffsetOf(qb)
+	vpAssert(ea == nil && eb == nil, "offsetof-ok-with-filter")
+	vpAssert(oa <= ob, "offsetof-monotone-with-filter")
+	vpAssert(ob <= int64(len(t.f.data)), "offsetof-within-file-with-filter")
+	// a key past the last entry maps to the end of the data area, i.e. where
+	// the first non-data block (the filter block) starts
+	if len(t.K) > 0 {
+		past := []byte{0xff, 0xff, 0xff} // beyond every stored key and every shortened index key
+		oe, ee := r.OffsetOf(past)
+		vpAssert(ee == nil && oe == int64(r.filterBH.offset), "offsetof-past-end-is-end-of-data-with-filter")
 	}
 	// reading with the filter policy switched off gives the same answers
 	o2 := *t.o
